@@ -205,8 +205,19 @@ func (p *provider) Stop(ctx context.Context) error {
 }
 
 func (p *provider) filter(obj any) bool {
-	// should never be of a different type. ok if panics
-	rs := obj.(*v1alpha4.RuleSet) // nolint: forcetypeassert
+	rs, ok := obj.(*v1alpha4.RuleSet)
+	if !ok {
+		// if a deletion event has been missed, the informer delivers the last known state of the
+		// object wrapped into a tombstone, which is seen by the filter first
+		tombstone, isTombstone := obj.(cache.DeletedFinalStateUnknown)
+		if !isTombstone {
+			return false
+		}
+
+		if rs, ok = tombstone.Obj.(*v1alpha4.RuleSet); !ok {
+			return false
+		}
+	}
 
 	return rs.Spec.AuthClassName == p.ac
 }
